@@ -9,8 +9,9 @@ from . import findings
 
 
 # ----------------------------------------------------------------------------- death-point tags
-def death_tags(frames, partial):
-    """frames: innermost-first list 'file:function:source' of the victim's main task. Returns set of tags."""
+def death_tags(frames, partial, held=None):
+    """frames: innermost-first list 'file:function:source' of the victim's main task; held: names of the kernel
+    semaphores the victim holds (None = unknown). Returns set of tags."""
     tags = set()
     fr = frames or []
     top = fr[0] if fr else ""
@@ -30,13 +31,19 @@ def death_tags(frames, partial):
         tags.add("holds_wlock_result")
     if in_put and not top.startswith("synchronize.py:__enter__"):
         tags.add("holds_wlock")
-    if "processes_management_lock.release()" in pw:
+    if "processes_management_lock.release()" in pw or ("processes_management_lock.acquire" in pw and held):
         tags.add("holds_mgmt_lock")
     if in_get:
         g = [s for s in fr if s.startswith("queues.py:get:")][0].split(":", 2)[2]
         waiting = ("_rlock.acquire" in g) or ("with self._rlock" in g and top.startswith("synchronize.py:__enter__"))
+        if held is not None and ("_rlock" in g):
+            waiting = not held          # parked at the acquire itself: the kernel table says whether it already has it
         if not waiting and "loads" not in g:
             tags.add("holds_rlock")
+    if in_put and held and top.startswith("synchronize.py:__enter__"):
+        tags.add("holds_wlock")
+        if "put(pid)" not in pw:
+            tags.add("holds_wlock_result")
     return tags
 
 
@@ -49,7 +56,7 @@ def predicates(H, v):
         d = p["death"]
         if not d:
             continue
-        tags = death_tags(d.get("where"), d.get("partial_msg"))
+        tags = death_tags(d.get("where"), d.get("partial_msg"), d.get("sems_held"))
         if ("holds_rlock" in tags or "holds_wlock" in tags) and graceful:
             preds.add("death:holds_queue_lock_and_graceful_shutdown")
         for t in tags:
@@ -116,7 +123,8 @@ def install_exclusions(w, ctx, prop):
             partial = None
             if mip is not None and mip[0]._pipe is not None:
                 partial = [mip[0]._pipe.written - mip[1], mip[2] + 4]
-            tags = death_tags(where(t, full=True), partial)
+            held = sorted(k.name for k in w.sems.values() if any(h[0] == p.pid for h in k.holders))
+            tags = death_tags(where(t, full=True), partial, held)
             for tg in tags:
                 if tg in veto_tags:
                     return veto_tags[tg]
